@@ -639,7 +639,12 @@ def find(obj, lookup_list, rrel_tree, obj_cls=None, split_string=".", use_proxy=
     if type(res) is tuple:
         # full path is in res[1]
         if use_proxy:
-            return ReferenceProxy(res[1])
+            path = res[1]
+            if not path or path[-1] is not res[0]:
+                # The last step did not consume a name (e.g. `a.~ref`): the
+                # referenced object still ends the path.
+                path = path + [res[0]]
+            return ReferenceProxy(path)
         else:
             return res[0]
     else:
